@@ -238,7 +238,28 @@ pub fn expect_parse(ty: Ty, toks: &[Tok], r: &Reading) -> Exp {
                 if ex {
                     return Exp::Err;
                 }
-                if !(1..=4).contains(k) || digits_value(&t.txt, *k as usize) != Some(*n) {
+                if !(1..=4).contains(k) {
+                    return Exp::Unmodelled;
+                }
+                // an explicit sign: '-' makes a date-bearing type fail whatever follows; '+' is
+                // accepted and changes nothing for Y, YYY and YYYY (for YY the sign counts
+                // towards the "more than two characters means a full year" rule, whose meaning
+                // the property leaves open: not modelled)
+                let tt = t.txt.trim();
+                let body = if let Some(rest) = tt.strip_prefix('-') {
+                    if digits_value(rest, *k as usize).is_some() {
+                        return Exp::Err;
+                    }
+                    return Exp::Unmodelled;
+                } else if let Some(rest) = tt.strip_prefix('+') {
+                    if *k == 2 {
+                        return Exp::Unmodelled;
+                    }
+                    rest
+                } else {
+                    tt
+                };
+                if digits_value(body, *k as usize) != Some(*n) {
                     return Exp::Unmodelled;
                 }
                 year = Some((*k, *n));
